@@ -138,15 +138,45 @@ U("parse_base", entry="h_parse_base", cbmc=unw(6) + NOOOM, defs={"quick": []}, e
   label="proof (loop-free: entry to first loop head)", props=["C01", "C02", "C12"], cost=10, **PARSEC)
 
 # ------------------------------------------------------------------ per-property text for MANIFEST / evidence
-HOOK_COMMITS = []
+HOOK_COMMITS = ["b37b503"]
 NOT_APPLICABLE = {}
+STEP_NOTE = ("The parser's token loop is covered for token sequences of every length by the loop-invariant rule applied by hand "
+             "(entry hook CFG_VERIF_PI_ENTRY; base + step units); soundness of that rule rests on the hook handing over every loop-carried local "
+             "(a renamed/added local breaks compilation -> exit 2) and on the carriers' havoc being as wide as the callees' effects. ")
 PROPERTY_INFO = {
+    "C01": {"level": "other",
+            "text": "cfg_parse_internal() refines the reference token automaton (spec/grammar_spec.h) - proved for every state/token/flag word by base+step units; "
+                    "cfg_setopt() arms (string, parse callbacks, section arm with title merge / duplicate refusal / per-instance copies) checked against the store contract on bounded shapes (<= 2 instances, 1-byte titles).",
+            "note": STEP_NOTE + "Not decided: end of input inside a section body (the nested parse answers EOF for '}' and for real end of input alike), the composition scanner->parser->getters (argued in DESIGN 5.C01)."},
     "C04": {"level": "other",
             "text": "cfg_setopt() INT/FLOAT/BOOL arms and cfg_parse_boolean() under contract; postconditions taken from the statement (spec/num_spec.h). "
                     "Integer and boolean tokens: every token up to 4 (quick) / 6 (thorough) bytes over all byte values, every entry errno - bounded stand-in. "
                     "Range of long, float numerals and errno independence for tokens of any length: proved over the ghost facts of an abstract strtol/strtod carrier.",
             "note": "strtol/strtod/strcasecmp/strspn are assumed contracts (C11).",
-            "explanation": "cfg_setopt() INT/FLOAT/BOOL arms and cfg_parse_boolean() checked against spec/num_spec.h by CBMC: "
-                           "every token up to the stated length over all 256 byte values, every entry errno, every flag word.",
+            "explanation": "cfg_setopt() INT/FLOAT/BOOL arms and cfg_parse_boolean() checked against spec/num_spec.h by CBMC: every token up to the stated length over all 256 byte values, every entry errno, every flag word.",
             "assumptions": []},
+    "C06": {"level": "other",
+            "text": "Parser side: in every state and for every token a rejection is reported in the same iteration through the current context's error function, or has one of the silent causes (callback veto, allocation failure); accepted steps deliver no diagnostic; sections inherit file/line/error function (cfg_setopt section arm, state 5 hook contract). Setters: a refused text is reported.",
+            "note": STEP_NOTE + "Scanner side (newline counting per lexical form, restart per include) is decided by the scanner units where they exist; the text of messages is not checked."},
+    "C07": {"level": "other",
+            "text": "Ownership contracts with CBMC's leak / double-free / use-after-free obligations on closed harnesses: cfg_free_value (every type, callbacks), cfg_addval, cfg_opt_setcomment, cfg_opt_setmulti (both outcomes), cfg_opt_rmnsec/rmtsec (shared search path detached, slot released), cfg_setopt pointer arm (release order) and section arm, and every exit of one parser iteration (pending annotation, title, call arguments).",
+            "note": "All shapes bounded (<= 3 values, one nesting level; nested cfg_free is a contract carrier). " + STEP_NOTE},
+    "C09": {"level": "other",
+            "text": "Every setter / list / bulk / section add-remove function is checked against the abstract store on every well-formed option state with <= 2 (quick) / 3 (thorough) values: whole-view postconditions (other values keep place and content), wrong type / illegal index / unknown name fail without effect.",
+            "note": "Operation sequences are covered as 'from every well-formed state, one call' (each call re-establishes well-formedness); flag words are literal representatives of every RESET/LIST/MULTI combination."},
+    "C10": {"level": "other",
+            "text": "Failure frames: for each refusing call (bulk set with a failing element at every position, vetoed by-name setters, wrong type / illegal index, unconvertible text on a set scalar, removing a missing section, duplicate title with unique titles) the option is compared bit-for-bit with a snapshot (values, count, order, annotation pointer, flags).",
+            "note": "Bounded shapes (<= 2/3 values). cfg_setopt on a list / empty / default-holding option appends its slot before converting; that case is outside the statement's list for sections and is recorded in DESIGN 7."},
+    "C12": {"level": "other",
+            "text": "Unknown-name detection and the skip states 10-15 of cfg_parse_internal() are checked in the step unit: with ignore-unknown an undeclared name enters the skipper without diagnostic, the skipper performs no store / lookup / callback, delivers no diagnostic on accepted steps, its nested activation only answers continue/reject, and sections inherit the flag (cfg_setopt section arm).",
+            "note": STEP_NOTE + "The skipper's transition table is pinned to the current one; conformance of whole skipped items to the reference grammar is not decided by the step unit (DESIGN 5.C12)."},
+    "C14": {"level": "other",
+            "text": "Callback contracts: cfg_setopt() calls the value-parsing callback at most once per value with exactly the token text and stores what it produced, a non-zero result fails the assignment; the parser runs the validation callback right after each store in states 2,3,4,5 and a veto ends the parse with no later action; function calls pass all collected arguments; by-name setters honour the pre-set validation callback (veto, rewrite).",
+            "note": STEP_NOTE + "call_function()'s argv assembly and cfg_getopt_array() are covered when their units exist (see units list in the evidence)."},
+    "C15": {"level": "other",
+            "text": "Grammar side: the reference automaton makes a comment token transparent in every state; the step unit proves it for the name state and the skipper's waiting states and reports the other states as a recorded finding; with annotations on, the pending comment is copied, attached right after the first stored value and released on every exit. cfg_opt_setcomment under contract.",
+            "note": STEP_NOTE + "Scanner side (comment forms yield one COMMENT token, trimming) belongs to the scanner units."},
+    "C18": {"level": "other",
+            "text": "Every unit above runs with any allocation free to fail (CBMC 6 default): failure-side postconditions on cfg_addval, cfg_opt_getval, setters, cfg_opt_setnstr (old string kept), cfg_opt_setcomment, cfg_setopt arms; the section arm's half-built instance is a recorded finding.",
+            "note": "Any subset of allocations may fail, which contains the single-fault enumeration; bounded shapes."},
 }
